@@ -1,7 +1,10 @@
 """C07 runner: builds the four declaration styles of one nested group on the real jsonargparse and observes
 their action tables and their answers to inputs.
 
-stdin : {"cases": [ {"gk": str, "fields": [[name, ty, dflt], ...], "inputs": [input, ...]}, ... ]}
+stdin : {"cases": [ {"gk": str, "fields": [[name, ty, dflt], ...], "nfields": [...], "inputs": [input, ...]}, ... ]}
+        fields  = the declared field list: the dataclass / class styles are built from it
+        nfields = its normal form under the documented signature rules: the dotted / inner-parser styles are
+                  declared from it (one add_argument per field)
         ty    = "int" | "str" | "bool" | ["list", ty] | ["opt", ty]
         dflt  = {"nd": 1} (no default) | {"v": json value}
         input = {"env": {NAME: text}, "kind": "args", "args": [[opt, value], ...]}   -> parse_args(["opt=value", ...])
@@ -67,9 +70,9 @@ def ty_of(hint):
     return ["other", str(hint)]
 
 
-def fields_of(case):
+def fields_of(fields):
     out = []
-    for name, t, d in case["fields"]:
+    for name, t, d in fields:
         out.append((name, py_type(t), MISSING if "nd" in d else d["v"]))
     return out
 
@@ -115,17 +118,20 @@ def add_each(p, prefix, fields):
         p.add_argument("--" + prefix + n, type=t, **kw)
 
 
-def build(style, gk, fields):
+def build(style, gk, fields, nfields):
+    """fields: the declared field list (signature styles); nfields: its normal form under the documented
+    signature rules (computed by the harness, checked against Model.C07Decl.norm by the judge), from which the
+    two add_argument styles are declared"""
     p = base()
     if style == "dotted":
-        add_each(p, gk + ".", fields)
+        add_each(p, gk + ".", nfields)
     elif style == "dcls":
         p.add_argument("--" + gk, type=mk_dataclass(fields))
     elif style == "cls":
         p.add_class_arguments(mk_class(fields), gk)
     elif style == "inner":
         ip = ArgumentParser(exit_on_error=False)
-        add_each(ip, "", fields)
+        add_each(ip, "", nfields)
         p.add_argument("--" + gk, action=ActionParser(parser=ip))
     return p
 
@@ -254,11 +260,12 @@ def main():
     saved = dict(os.environ)
     out = []
     for case in cases:
-        fields = fields_of(case)
+        fields = fields_of(case["fields"])
+        nfields = fields_of(case["nfields"])
         res = {"tables": {}, "runs": []}
         for st in STYLES:
             try:
-                res["tables"][st] = table(build(st, case["gk"], fields))
+                res["tables"][st] = table(build(st, case["gk"], fields, nfields))
             except BaseException as e:  # noqa
                 res["tables"][st] = {"error": type(e).__name__ + ": " + str(e)[:200]}
         for inp in case["inputs"]:
@@ -270,7 +277,7 @@ def main():
                 os.environ.update(saved)
                 os.environ.update(inp["env"])
                 try:
-                    p = build(st, case["gk"], fields)
+                    p = build(st, case["gk"], fields, nfields)
                 except BaseException as e:  # noqa
                     r["styles"][st] = {"out": "other:build:" + type(e).__name__, "dump": None}
                     continue
